@@ -420,6 +420,13 @@ func (w *World) DrainAll() (map[*Sess][]imapc.Resp, error) {
 // Logout sends LOGOUT and waits for the connection to close.
 func (w *World) Logout(s *Sess) imapc.Result {
 	r := s.C.Cmd("LOGOUT")
+	// the server closes the connection at the very end of the session's tear-down (after the state was released
+	// and its deferred work — e.g. purging messages marked for deletion — is done)
+	for r.Err == nil {
+		if _, err := s.C.ReadResp(); err != nil {
+			break
+		}
+	}
 	w.waitGone(s)
 	return r
 }
